@@ -146,6 +146,9 @@ CheckClean(e, line) ==
 (* one TTL pass on the real engine (Transaction.Expire + commit, or the background loop) *)
 EvOfNs(evs, n) == FilterSeq(LAMBDA x : x.ns = n, evs)
 CheckExpire(e, line) ==
+  IF e.via \in {"aborted", "rejected-commit"} THEN      \* a pass that was given up: nothing happened
+     ((e.pre = e.post /\ e.ev = <<>>) \/ Bad(line, "expire:abandoned-pass-changed-the-database:" \o e.via, e.pre, e.post))
+  ELSE
   LET pre == ObsDb(e.pre)
       post == ObsDb(e.post)
       exp == ExpireDb(pre, e.now)
